@@ -459,7 +459,7 @@ def _to_np_array(data):
 
 
 def _infer_dtype(data):
-    if data and isinstance(data[0], int):
+    if data and isinstance(data[0], int) and not isinstance(data[0], bool):
         max_value = max(data)
         min_value = min(data)
         if max_value >= 2**63 and min_value >= 0:
